@@ -154,6 +154,25 @@ using in_t = pegtl::memory_input< pegtl::tracking_mode::eager, pegtl::eol::lf_cr
    RULE( b64le_range,      uint64_le::range< 0x00000000FFFFFFFF, 0x0000000100000001 > ) \
    RULE( b64be_mask_one,   uint64_be::mask_one< 0xFF000000000000FF, 0x1200000000000034, 0x0000000000001234 > ) \
    RULE( b64le_mask_range, uint64_le::mask_range< 0x0000FFFFFFFF0000, 0x0000000100000000, 0x0000000200000000 > ) \
+   RULE( a_not_range_same, ascii::not_range< 'x', 'x' > ) \
+   RULE( u8_range_same,    utf8::range< 0x20AC, 0x20AC > ) \
+   RULE( u8_not_range_same, utf8::not_range< 0xE4, 0xE4 > ) \
+   RULE( u8_one_none,      utf8::one<> ) \
+   RULE( u8_not_one_none,  utf8::not_one<> ) \
+   RULE( u8_ranges_pair,   utf8::ranges< 0x80, 0x7FF > ) \
+   RULE( u8_ranges_one,    utf8::ranges< 0x20AC > ) \
+   RULE( u8_ranges_none,   utf8::ranges<> ) \
+   RULE( u16be_not_range_same, utf16_be::not_range< 0x10000, 0x10000 > ) \
+   RULE( u16le_range_same, utf16_le::range< 0xFFFF, 0xFFFF > ) \
+   RULE( u32le_not_range_same, utf32_le::not_range< 0x41, 0x41 > ) \
+   RULE( b8_not_range_same, uint8::not_range< 0x80, 0x80 > ) \
+   RULE( b8_mask_not_range_same, uint8::mask_not_range< 0xF0, 0x30, 0x30 > ) \
+   RULE( b8_mask_ranges_pair, uint8::mask_ranges< 0x0F, 0x03, 0x05 > ) \
+   RULE( b16be_not_range_same, uint16_be::not_range< 0x1234, 0x1234 > ) \
+   RULE( b16le_mask_not_range_same, uint16_le::mask_not_range< 0x00FF, 0x34, 0x34 > ) \
+   RULE( b32be_range_same, uint32_be::range< 0x80000000, 0x80000000 > ) \
+   RULE( b32le_not_one_none, uint32_le::not_one<> ) \
+   RULE( b64le_not_range_same, uint64_le::not_range< 0x0102030405060708, 0x0102030405060708 > ) \
    RULE( i_one,            ascii::istring< 'k' > ) \
    RULE( i_mixed,          ascii::istring< 'a', 'Z', '1', '@', '[', '`', '{' > ) \
    RULE( i_hi,             ascii::istring< 'z', static_cast< char >( 0xE4 ), 'A' > ) \
